@@ -414,12 +414,15 @@ func (in *Interp) hashUF(kind string, input []*Term, outBytes int) []*Term {
 		return out
 	}
 	in.ufSeq++
-	out := make([]*Term, outBytes)
-	// one wide variable split into bytes keeps the model small
-	wide := ts.Var(fmt.Sprintf("uf!%s!%d", kind, in.ufSeq), outBytes*8)
-	for i := range out {
-		hi := (outBytes-i)*8 - 1
-		out[i] = ts.Extract(wide, hi, hi-7)
+	out := constHashOut(in, kind, input, outBytes) // x_c12.go: constant input => the real digest
+	if out == nil {
+		out = make([]*Term, outBytes)
+		// one wide variable split into bytes keeps the model small
+		wide := ts.Var(fmt.Sprintf("uf!%s!%d", kind, in.ufSeq), outBytes*8)
+		for i := range out {
+			hi := (outBytes-i)*8 - 1
+			out[i] = ts.Extract(wide, hi, hi-7)
+		}
 	}
 	app := &hashApp{input: input, out: out}
 	for _, o := range in.hashApps[kind] {
